@@ -20,6 +20,7 @@ pub mod c25;
 pub mod c29;
 pub mod c30;
 pub mod c31;
+pub mod c32;
 pub mod c34;
 pub mod eval;
 pub mod hist;
@@ -105,6 +106,7 @@ pub fn registry() -> Vec<PropInfo> {
     v.extend(c29::props());
     v.extend(c30::props());
     v.extend(c31::props());
+    v.extend(c32::props());
     v.extend(c34::props());
     v
 }
